@@ -11,7 +11,61 @@ servers), each at full strength or `_partial` under the decidable exclusion that
 with a kernel-checked witness inside the exclusion and a non-vacuity example outside it.
 -/
 import KinModel.Lemmas.C17
+import KinModel.Gen.CopyTables
 namespace KinModel.Conv
+
+/-! ## the field-copy tables (T tie): regenerated from openapi2conv on every run -/
+
+/-- every composite literal / assignment the translator met had a shape it can read -/
+theorem copyTables_recognised : KinModel.Gen.copyTablesUnrecognised = [] := by decide
+
+/-- the model's tables are the code's tables (a changed copy breaks one of these) -/
+theorem toV3SchemaTable_is_code : KinModel.Gen.toV3SchemaTable = toV3SchemaTable := by decide
+theorem fromV3SchemaTable_is_code : KinModel.Gen.fromV3SchemaTable = fromV3SchemaTable := by decide
+theorem toV3ParamTable_is_code : KinModel.Gen.toV3ParamTable = toV3ParamTable := by decide
+theorem toV3FormTable_is_code : KinModel.Gen.toV3FormTable = toV3FormTable := by decide
+theorem fromV3ParamTable_is_code : KinModel.Gen.fromV3ParamTable = fromV3ParamTable := by decide
+theorem fromV3FormTable_is_code : KinModel.Gen.fromV3FormTable = fromV3FormTable := by decide
+theorem fromV3FileTable_is_code : KinModel.Gen.fromV3FileTable = fromV3FileTable := by decide
+theorem toV3FlowTable_is_code : KinModel.Gen.toV3FlowTable = toV3FlowTable := by decide
+theorem fromV3SecTable_is_code : KinModel.Gen.fromV3SecTable = fromV3SecTable := by decide
+
+/-- **copies_complete**: at every site every constraint field of that site (and type / format / required where
+    the site copies them itself) is copied from the field of the same name -/
+theorem copies_complete :
+    Complete ("type" :: "format" :: "required" :: constraintFields) KinModel.Gen.toV3SchemaTable = true ∧
+    Complete ("type" :: "format" :: "required" :: constraintFields) KinModel.Gen.fromV3SchemaTable = true ∧
+    Complete ("type" :: "format" :: "items" :: paramConstraintFields) KinModel.Gen.toV3ParamTable = true ∧
+    Complete ("type" :: "format" :: "items" :: paramConstraintFields) KinModel.Gen.fromV3ParamTable = true ∧
+    Complete paramConstraintFields KinModel.Gen.toV3FormTable = true ∧
+    Complete paramConstraintFields KinModel.Gen.fromV3FormTable = true ∧
+    Complete ["authorizationUrl", "tokenUrl"] KinModel.Gen.toV3FlowTable = true := by decide
+
+/-- the way back copies, per OAuth2 flow, the URLs that flow uses (and names the flow) -/
+theorem copies_complete_flows :
+    [("implicit.flow", "=implicit"), ("implicit.authorizationUrl", "authorizationUrl"),
+     ("authorizationCode.flow", "=accessCode"), ("authorizationCode.authorizationUrl", "authorizationUrl"),
+     ("authorizationCode.tokenUrl", "tokenUrl"), ("password.flow", "=password"), ("password.tokenUrl", "tokenUrl"),
+     ("clientCredentials.flow", "=application"), ("clientCredentials.tokenUrl", "tokenUrl")].all
+      (fun row => KinModel.Gen.fromV3SecTable.contains row) = true := by decide
+
+/-- the missing rows behind findings #21a and F-C17-4: FromV3SchemaRef has no `discriminator` row,
+    FromV3RequestBodyFormData no `format` row -/
+theorem copies_missing_rows :
+    lookupSrc "discriminator" KinModel.Gen.fromV3SchemaTable = none ∧
+    lookupSrc "format" KinModel.Gen.fromV3FormTable = none := by decide
+
+/-- **conv_preserves**: chains of copies that read every field of interest from the field of the same name
+    preserve the record on those fields (the lemma that lifts the `decide`d table facts to all records) -/
+theorem conv_preserves {V : Type} (fields : List String) (tables : List (List (String × String))) (r : Rec V)
+    (hnd : tables.all NoDupDst = true) (hp : fields.all (fun f => pathSrc tables f == some f) = true) :
+    normRec fields (convs tables r) = normRec fields r :=
+  normRec_convs_eq fields tables [] r hnd (by simp) (by simpa [pathSrc] using hp)
+
+/-- **missing_row_loses**: a field without a row is lost for some record — the table condition is exact -/
+theorem missing_row_loses {V : Type} [Inhabited V] (f : String) (table : List (String × String))
+    (h : lookupSrc f table = none) : ∃ r : Rec V, rlookup f (conv table r) ≠ rlookup f r :=
+  ⟨[(f, default)], by simp [rlookup_conv_none f table _ h, rlookup]⟩
 
 /-! ## schemas -/
 
@@ -188,10 +242,6 @@ theorem refs_rewritten_partial {V : Type} (s : Sch V) (h2 : addlRef s = false) (
 
 /-! ## parameters and headers -/
 
-/-- items of a parameter / header inside the fragment of `toV3S_preserves_partial` -/
-def itemsOK3 {V : Type} (o : Option (Sch V)) : Bool := o.all (fun s => !addlImpure s && v2Refs s)
-/-- … and of `roundtripS_partial` -/
-def itemsOKBack {V : Type} (o : Option (Sch V)) : Bool := o.all (fun s => !hasDisc s && !addlRef s && v2Refs s)
 
 /-- the schema ToV3Parameter builds carries exactly the parameter's constraints -/
 theorem paramSchema_preserves {V : Type} (p : Param2 V) (hi : itemsOK3 p.items = true) :
@@ -252,9 +302,6 @@ theorem toV3Form_preserves {V : Type} (p : Param2 V) (hi : itemsOK3 p.items = tr
         simp [itemsKids, abs3Kids, abs2Kids, toV3S_preserves_partial s hi.1 hi.2]
   · cases hr : p.required <;> simp [toV3FormProp, propRequired, hr]
 
-/-- exclusion (findings #21c and F-C17-4): the way back loses `required` and `format` of an inline form field -/
-def formLossy {V : Type} (p : Param2 V) : Bool :=
-  p.required || (p.cons.fmt.isSome && p.cons.ty != some "file")
 
 /-- Full statement: `inputA2 (fromV3FormProp p.name (clearReq (toV3FormProp p))) = inputA2 (.val p)` for every
     formData parameter. It fails inside `formLossy`. -/
@@ -309,10 +356,6 @@ example :
 
 /-! ## responses -/
 
-def headerOK3 {V : Type} (h : String × Param2 V) : Bool := itemsOK3 h.2.items
-def headerOKBack {V : Type} (h : String × Param2 V) : Bool := itemsOKBack h.2.items
-def schemaOK3 {V : Type} (o : Option (Sch V)) : Bool := o.all (fun s => !addlImpure s && v2Refs s)
-def schemaOKBack {V : Type} (o : Option (Sch V)) : Bool := o.all (fun s => !hasDisc s && !addlRef s && v2Refs s)
 
 theorem headers_preserved {V : Type} (hs : List (String × Param2 V)) (h : hs.all headerOK3 = true) :
     (hs.map (fun (x : String × Param2 V) => (x.1, toV3Param { x.2 with name := "", loc := "" }))).map
@@ -354,10 +397,6 @@ theorem toV3Resp_preserves {V : Type} (produces : List String) (r : RRef2 V)
       simp only [Option.map_some, hne, toV3S_preserves_partial s hok.2.1 hok.2.2]
       congr 1
 
-/-- exclusion (finding #26): the response has a schema and `produces` lacks application/json -/
-def respLossy {V : Type} (produces : List String) : RRef2 V → Bool
-  | .ref _ _ => false
-  | .val x => x.schema.isSome && !(effProduces produces).contains "application/json"
 
 theorem headers_roundtrip {V : Type} (hs : List (String × Param2 V)) (h : hs.all headerOKBack = true) :
     ((hs.map (fun (x : String × Param2 V) => (x.1, toV3Param { x.2 with name := "", loc := "" }))).map
@@ -414,10 +453,6 @@ example :
 
 /-! ## security schemes -/
 
-/-- the schemes of the fragment: basic, apiKey, and oauth2 with one of the four flows -/
-def secInFragment (s : Sec2) : Bool :=
-  s.type == "basic" || s.type == "apiKey" ||
-  (s.type == "oauth2" && (s.flow == "implicit" || s.flow == "accessCode" || s.flow == "password" || s.flow == "application"))
 
 /-- **security definitions become the corresponding schemes** -/
 theorem toV3Sec_preserves (s : Sec2) (h : secInFragment s = true) :
@@ -529,6 +564,304 @@ theorem servers_roundtrip_partial (l : Loc2) (h : l.host ≠ "")
 theorem servers_witness_ws :
     let l : Loc2 := { host := "h", basePath := "/", schemes := ["ws"] }
     serversA2 (fromV3Servers (toV3Servers l)) ≠ serversA2 l := by
+  decide
+
+/-! ## documents -/
+
+theorem mapRes_ok {α β : Type} (f : α → Res β) (g : α → β) (l : List α) (h : ∀ a ∈ l, f a = .ok (g a)) :
+    mapRes f l = .ok (l.map g) := by
+  induction l with
+  | nil => rfl
+  | cons a rest ih =>
+    have h1 := h a (by simp)
+    have h2 := ih (fun b hb => h b (by simp [hb]))
+    simp [mapRes, h1, h2]
+
+theorem toV3P_simple {V : Type} (env : Env3 V) (c : List String) (q : PRef2 V) (h : paramSimple q = true) :
+    toV3P env c q = .param (toV3PS q) := by
+  cases q with
+  | ref k n => simp [paramSimple] at h
+  | val p =>
+    simp only [paramSimple, Bool.and_eq_true, bne_iff_ne, ne_eq] at h
+    simp [toV3P, toV3PS, h.1.1, h.1.2]
+
+theorem splitP3_params {V : Type} (l : List (PRef3 V)) :
+    splitP3 (l.map P3.param) = (l, ([] : List (BRef3 V)), ([] : List (String × Sch V))) := by
+  induction l with
+  | nil => rfl
+  | cons a rest ih => simp [splitP3, ih]
+
+theorem inputs_simple {V : Type} (l : List (PRef2 V)) (h : l.all paramSimple = true) :
+    (l.map toV3PS).map paramA3 = l.map inputA2 := by
+  induction l with
+  | nil => rfl
+  | cons q rest ih =>
+    simp only [List.all_cons, Bool.and_eq_true] at h
+    simp only [List.map_cons, ih h.2]
+    congr 1
+    cases q with
+    | ref k n => simp [paramSimple] at h
+    | val p =>
+      have hq := h.1
+      simp only [paramSimple, Bool.and_eq_true, bne_iff_ne, ne_eq] at hq
+      exact toV3Param_preserves p hq.1.1 hq.1.2 hq.2
+
+theorem responses_simple {V : Type} (produces : List String) (l : List (String × RRef2 V))
+    (h : l.all (fun kr => respOK3 kr.2) = true) :
+    (l.map (fun (kr : String × RRef2 V) => (kr.1, toV3Resp produces kr.2))).map
+      (fun (kr : String × RRef3 V) => (kr.1, respA3 kr.2)) =
+    l.map (fun (kr : String × RRef2 V) => (kr.1, respA2 kr.2)) := by
+  induction l with
+  | nil => rfl
+  | cons kr rest ih =>
+    simp only [List.all_cons, Bool.and_eq_true] at h
+    simp only [List.map_cons, ih h.2]
+    congr 1
+    have : respA3 (toV3Resp produces kr.2) = respA2 kr.2 := by
+      apply toV3Resp_preserves
+      have h1 := h.1
+      cases hr : kr.2 with
+      | ref k n => simpa [respOK3, hr] using h1
+      | val x => simpa [respOK3, hr] using h1
+    rw [this]
+
+theorem toV3Op_simple {V : Type} (env : Env3 V) (dc : List String) (o : Op2 V) (h : opSimple o = true) :
+    toV3Op env dc o = .ok (toV3OpS o) := by
+  simp only [opSimple, Bool.and_eq_true] at h
+  have hm : o.params.map (toV3P env (if o.consumes.isEmpty then dc else o.consumes)) =
+      (o.params.map toV3PS).map P3.param := by
+    rw [List.map_map]
+    apply List.map_congr_left
+    intro q hq
+    exact toV3P_simple env _ q (List.all_eq_true.mp h.1 q hq)
+  unfold toV3Op
+  simp only [hm, splitP3_params]
+  simp [toV3OpS]
+
+theorem toV3Path_simple {V : Type} (env : Env3 V) (dc : List String) (p : Path2 V) (h : pathSimple p = true) :
+    toV3Path env dc p = .ok (toV3PathS p) := by
+  simp only [pathSimple, Bool.and_eq_true] at h
+  have h1 : mapRes (toV3Op env dc) p.ops = .ok (p.ops.map toV3OpS) :=
+    mapRes_ok _ _ _ (fun o ho => toV3Op_simple env dc o (List.all_eq_true.mp h.2 o ho))
+  have h2 : mapRes (pathParam3 env dc) p.params = .ok (p.params.map toV3PS) :=
+    mapRes_ok _ _ _ (fun q hq => by simp [pathParam3, toV3P_simple env dc q (List.all_eq_true.mp h.1 q hq)])
+  simp [toV3Path, h1, h2, toV3PathS]
+
+/-- every operation of the simple fragment: **same path, method, operation id, parameters, responses** -/
+theorem opA_simple {V : Type} (path : String) (o : Op2 V) (h : opSimple o = true) :
+    ({ path := path, method := (toV3OpS o).method, opId := (toV3OpS o).opId,
+       inputs := (toV3OpS o).params.map paramA3 ++ (match (toV3OpS o).body with | none => [] | some b => bodyA3 b),
+       responses := (toV3OpS o).responses.map (fun kr => (kr.1, respA3 kr.2)) } : OpA V) =
+    { path := path, method := o.method, opId := o.opId, inputs := o.params.map inputA2,
+      responses := o.responses.map (fun kr => (kr.1, respA2 kr.2)) } := by
+  simp only [opSimple, Bool.and_eq_true] at h
+  simp only [toV3OpS, List.append_nil, inputs_simple o.params h.1, responses_simple o.produces o.responses h.2]
+
+theorem mapSecs_preserves (l : List (String × Sec2)) (h : l.all (fun ks => secInFragment ks.2) = true) :
+    ∃ l', mapSecs l = .ok l' ∧
+      l'.map (fun (ks : String × Sec3) => (ks.1, secA3 ks.2)) = l.map (fun (ks : String × Sec2) => (ks.1, secA2 ks.2)) := by
+  induction l with
+  | nil => exact ⟨[], rfl, rfl⟩
+  | cons ks rest ih =>
+    simp only [List.all_cons, Bool.and_eq_true] at h
+    obtain ⟨l', hl, hm⟩ := ih h.2
+    obtain ⟨t, ht, hs⟩ := toV3Sec_preserves ks.2 h.1
+    obtain ⟨k, s⟩ := ks
+    exact ⟨(k, t) :: l', by simp [mapSecs, ht, hl], by simp [hm, hs]⟩
+
+theorem ainsert_fresh {α : Type} (k : String) (v : α) (l : List (String × α)) (h : alookup k l = none) :
+    ainsert k v l = l ++ [(k, v)] := by
+  induction l with
+  | nil => rfl
+  | cons kv rest ih =>
+    obtain ⟨k', v'⟩ := kv
+    simp only [alookup] at h
+    split at h
+    · simp at h
+    · rename_i hne
+      simp [ainsert, hne, ih h]
+
+theorem alookup_append_none {α : Type} (k : String) (l1 l2 : List (String × α))
+    (h1 : alookup k l1 = none) (h2 : alookup k l2 = none) : alookup k (l1 ++ l2) = none := by
+  induction l1 with
+  | nil => simpa using h2
+  | cons kv rest ih =>
+    obtain ⟨k', v'⟩ := kv
+    simp only [alookup] at h1
+    split at h1
+    · simp at h1
+    · rename_i hne
+      simp [alookup, hne, ih h1]
+
+theorem alookup_map_none {α β : Type} (k : String) (g : α → β) (l : List (String × α)) (h : alookup k l = none) :
+    alookup k (l.map (fun kv => (kv.1, g kv.2))) = none := by
+  induction l with
+  | nil => rfl
+  | cons kv rest ih =>
+    obtain ⟨k', v'⟩ := kv
+    simp only [alookup] at h
+    split at h
+    · simp at h
+    · rename_i hne
+      simp [alookup, hne, ih h]
+
+/-- distinct definition names: the component schemas are the converted definitions, in order -/
+theorem mergeSchemas_nodup {V : Type} (defs : List (String × Sch V)) (acc : List (String × CSchema V))
+    (hn : nodupKeys defs = true) (hacc : ∀ kv ∈ defs, alookup kv.1 acc = none) :
+    defs.foldl (fun acc (d : String × Sch V) => ainsert d.1 { formName := none, schema := toV3S d.2 } acc) acc =
+    acc ++ defs.map (fun d => (d.1, ({ formName := none, schema := toV3S d.2 } : CSchema V))) := by
+  induction defs generalizing acc with
+  | nil => simp
+  | cons d rest ih =>
+    obtain ⟨k, s⟩ := d
+    simp only [nodupKeys, Bool.and_eq_true, Option.isNone_iff_eq_none] at hn
+    simp only [List.foldl_cons]
+    rw [ainsert_fresh k _ acc (hacc (k, s) (by simp))]
+    rw [ih _ hn.2]
+    · simp
+    · intro kv hkv
+      apply alookup_append_none
+      · exact hacc kv (by simp [hkv])
+      · obtain ⟨k2, v2⟩ := kv
+        by_cases hk : k2 = k
+        · subst hk
+          have : alookup k2 rest = none := hn.1
+          -- kv ∈ rest with key k2 contradicts alookup k2 rest = none
+          exfalso
+          clear ih hacc hn
+          induction rest with
+          | nil => simp at hkv
+          | cons x xs ihx =>
+            obtain ⟨kx, vx⟩ := x
+            simp only [alookup] at this
+            split at this
+            · simp at this
+            · rename_i hne
+              simp only [List.mem_cons, Prod.mk.injEq] at hkv
+              rcases hkv with ⟨hk, _⟩ | hkv
+              · exact hne hk
+              · exact ihx hkv this
+        · simp [alookup, hk]
+
+theorem ops_simple {V : Type} (paths : List (Path2 V)) (h : paths.all pathSimple = true) :
+    (paths.map toV3PathS).flatMap (fun p => p.ops.map (fun o =>
+      ({ path := p.path, method := o.method, opId := o.opId,
+         inputs := o.params.map paramA3 ++ (match o.body with | none => [] | some b => bodyA3 b),
+         responses := o.responses.map (fun kr => (kr.1, respA3 kr.2)) } : OpA V))) =
+    paths.flatMap (fun p => p.ops.map (fun o =>
+      ({ path := p.path, method := o.method, opId := o.opId, inputs := o.params.map inputA2,
+         responses := o.responses.map (fun kr => (kr.1, respA2 kr.2)) } : OpA V))) := by
+  induction paths with
+  | nil => rfl
+  | cons p rest ih =>
+    simp only [List.all_cons, Bool.and_eq_true] at h
+    simp only [List.map_cons, List.flatMap_cons, ih h.2]
+    congr 1
+    have hp := h.1
+    simp only [pathSimple, Bool.and_eq_true] at hp
+    simp only [toV3PathS, List.map_map]
+    apply List.map_congr_left
+    intro o ho
+    exact opA_simple p.path o (List.all_eq_true.mp hp.2 o ho)
+
+theorem pathParams_simple {V : Type} (paths : List (Path2 V)) (h : paths.all pathSimple = true) :
+    ((paths.map toV3PathS).filter (fun p => !p.params.isEmpty)).map (fun p => (p.path, p.params.map paramA3)) =
+    (paths.filter (fun p => !p.params.isEmpty)).map (fun p => (p.path, p.params.map inputA2)) := by
+  induction paths with
+  | nil => rfl
+  | cons p rest ih =>
+    simp only [List.all_cons, Bool.and_eq_true] at h
+    have hp := h.1
+    simp only [pathSimple, Bool.and_eq_true] at hp
+    have he : (toV3PathS p).params.isEmpty = p.params.isEmpty := by simp [toV3PathS]
+    simp only [List.map_cons, List.filter_cons, he]
+    cases hpe : p.params.isEmpty with
+    | true => simpa using ih h.2
+    | false =>
+      simp only [Bool.not_false, if_true, List.map_cons, ih h.2]
+      congr 1
+      simp [toV3PathS, inputs_simple p.params hp.1]
+
+/-- **Document level, ToV3** (full Api equality on the simple fragment): a document without shared parameters
+    whose operations take inline query / header / path parameters converts, and the converted document
+    describes the same API — the same paths, methods, operation ids, parameters, responses (inline or
+    shared, with headers and schema), definitions with rewritten references, servers and security schemes.
+    (Body and form parameters and shared parameters are covered per component by the theorems above and
+    by the differential run; `toV3` additionally fails when `ResolveRefsIn` meets an unrewritten reference,
+    which `addlImpure`-free schemas exclude.) -/
+theorem api3_toV3_simple {V : Type} (d : Doc2 V) (h : docSimple d = true) :
+    ∃ d3, toV3Raw d = .ok d3 ∧ api3 d3 = api2 d := by
+  simp only [docSimple, Bool.and_eq_true, List.isEmpty_iff] at h
+  obtain ⟨⟨⟨⟨⟨⟨hparams, hpaths⟩, hresps⟩, hnodup⟩, hdefs⟩, hsecs⟩, hloc⟩ := h
+  obtain ⟨secs, hsecs1, hsecs2⟩ := mapSecs_preserves d.secs hsecs
+  have hp : mapRes (toV3Path { cbodies := [], cschemas := [] } d.consumes) d.paths = .ok (d.paths.map toV3PathS) :=
+    mapRes_ok _ _ _ (fun p hp => toV3Path_simple _ _ p (List.all_eq_true.mp hpaths p hp))
+  have hmerge : mergeSchemas ([] : List (String × CSchema V)) d.defs =
+      d.defs.map (fun ks => (ks.1, ({ formName := none, schema := toV3S ks.2 } : CSchema V))) := by
+    have := mergeSchemas_nodup d.defs [] hnodup (by intro kv _; rfl)
+    simpa [mergeSchemas] using this
+  refine ⟨{ servers := toV3Servers d.loc, cparams := [], cbodies := [], cschemas := mergeSchemas [] d.defs,
+            cresponses := d.responses.map (fun kr => (kr.1, toV3Resp d.produces kr.2)), secs := secs,
+            paths := d.paths.map toV3PathS }, ?_, ?_⟩
+  · simp [toV3Raw, hparams, sharedP3, hp, hsecs1]
+  · have hserv : toV3Servers d.loc = serversA2 d.loc := by
+      simp only [locOK, Bool.or_eq_true, bne_iff_ne, ne_eq, Bool.and_eq_true, beq_iff_eq, List.isEmpty_iff] at hloc
+      rcases hloc with hh | ⟨hb, hs⟩
+      · exact servers_preserved_partial d.loc hh
+      · by_cases hh : d.loc.host = ""
+        · simp [toV3Servers, serversA2, hh, hb, hs]
+        · exact servers_preserved_partial d.loc hh
+    have hdefs' : ∀ l : List (String × Sch V), l.all (fun ks => !addlImpure ks.2 && v2Refs ks.2) = true →
+        (l.map (fun ks => (ks.1, ({ formName := none, schema := toV3S ks.2 } : CSchema V)))).filterMap
+        (fun kc => match kc.2.formName with | none => some (kc.1, abs3S kc.2.schema) | some _ => none) =
+        l.map (fun ks => (ks.1, abs2S ks.2)) := by
+      intro l hl
+      induction l with
+      | nil => rfl
+      | cons ks rest ih =>
+        simp only [List.all_cons, Bool.and_eq_true, Bool.not_eq_true'] at hl
+        simp only [List.map_cons, List.filterMap_cons, ih hl.2, toV3S_preserves_partial ks.2 hl.1.1 hl.1.2]
+    have hshared : ∀ l : List (String × Sch V),
+        (l.map (fun ks => (ks.1, ({ formName := none, schema := toV3S ks.2 } : CSchema V)))).filterMap
+        (fun kc => kc.2.formName.map (fun n => (kc.1, sharedForm3 n kc.2))) = [] := by
+      intro l
+      induction l with
+      | nil => rfl
+      | cons ks rest ih => simp [ih]
+    apply Api_ext
+    · exact ops_simple d.paths hpaths
+    · exact pathParams_simple d.paths hpaths
+    · show ([] : List (String × InputA V)) ++ [] ++ _ = List.map _ d.params
+      rw [hparams, hmerge, hshared]; rfl
+    · exact responses_simple d.produces d.responses hresps
+    · show List.filterMap _ (mergeSchemas [] d.defs) = _
+      rw [hmerge]; exact hdefs' d.defs hdefs
+    · exact hserv
+    · exact hsecs2
+
+/-- non-vacuity of `api3_toV3_simple`: a document with a path parameter, a constrained array query parameter,
+    a response with headers but no schema, a shared response, two definitions (one referring to the other,
+    one nullable property), an accessCode security scheme and host + base path -/
+example :
+    let idp : Param2 Nat := { name := "id", loc := "path", required := true, cons := { ty := some "string" },
+                              items := none, schema := none }
+    let q : Param2 Nat := { name := "tags", loc := "query", required := false,
+                            cons := { ty := some "array", sc := [("uniqueItems", 1)] },
+                            items := some (.node { ty := some "string", sc := [("enum", 2)] } []), schema := none }
+    let hdr : Param2 Nat := { name := "", loc := "", required := false, cons := { ty := some "integer", sc := [("minimum", 1)] },
+                              items := none, schema := none }
+    let r302 : RRef2 Nat := .val { desc := "moved", headers := [("X-Rate", hdr)], schema := none }
+    let r200 : RRef2 Nat := .val { desc := "ok", headers := [], schema := some (.ref RK.def2 "A") }
+    let d : Doc2 Nat := {
+      loc := { host := "api.example.com", basePath := "/v1", schemes := ["https"] }, consumes := [], produces := [],
+      params := [], responses := [("nf", .val { desc := "not found", headers := [], schema := none })],
+      defs := [("A", .node { ty := some "object", req := ["b"] } [(Slot.prop "b", .ref RK.def2 "B")]),
+               ("B", .node { ty := some "string", xnull := true } [])],
+      secs := [("o", { type := "oauth2", flow := "accessCode", authUrl := "https://a/x", tokenUrl := "https://a/t" })],
+      paths := [{ path := "/p/{id}", params := [.val idp],
+                  ops := [{ method := "get", opId := "g", consumes := [], produces := [], params := [.val q],
+                            responses := [("200", r200), ("302", r302), ("404", .ref RK.resp2 "nf")] }] }] }
+    docSimple d = true := by
   decide
 
 end KinModel.Conv
